@@ -88,7 +88,7 @@ def idents(p, position="other"):
     if p.get("keywords"):
         kws = [k for k in KEYWORD_IDENTS if k not in MACRO_NAMES]
         if position == "param":
-            kws = [k for k in kws if k not in PARAM_COLLISIONS and (k not in JS_RESERVED_PARAMS or not p.get("steer_js_params", True))]
+            kws = [k for k in kws if k not in PARAM_COLLISIONS and (k not in JS_RESERVED_PARAMS or not p.get("steer_js_params", False))]
         return st.one_of(st.sampled_from(PLAIN_IDENTS), st.sampled_from(kws), st.sampled_from(kws))
     return st.sampled_from(PLAIN_IDENTS)
 
